@@ -1,3 +1,7 @@
 import Dalek.Props.C01
 import Dalek.Props.C04
 import Dalek.Props.C11
+import Dalek.Props.C12
+import Dalek.Props.C14
+import Dalek.Props.C15
+import Dalek.Props.C17
